@@ -83,10 +83,15 @@ def _worker_chunk(args):
     try:
         mod = load_prop(pid)
         agg = new_agg()
-        for seed in seeds:
+        for idx, seed in enumerate(seeds):
             scn = mod.gen(seed, tier)
             out = run_one(mod, scn)
+            before = len(agg['violations'])
             merge_run(agg, seed, scn, out)
+            for k in range(before, len(agg['violations'])):
+                # what this process executed before the failing run (the chunk starts from a clean image)
+                sd, sc, v = agg['violations'][k]
+                agg['violations'][k] = (sd, sc, dict(v, _history=seeds[:idx]))
             if agg['samples'] and 'events' not in agg['samples'][0] and agg['samples'][0]['seed'] == seed:
                 # one sample per chunk carries the head of its event log (re-executed with logging on)
                 logged = run_one(mod, scn, want_log=True)
@@ -95,6 +100,19 @@ def _worker_chunk(args):
         return freeze_agg(agg)
     finally:
         faulthandler.cancel_dump_traceback_later()
+
+
+def _chunk_main(conn, args):
+    """Body of a per-chunk process: run the chunk, send the aggregate (or the exception) back."""
+    try:
+        part = _worker_chunk(args)
+    except BaseException as e:  # noqa: BLE001
+        part = {'worker_exception': ''.join(traceback.format_exception(type(e), e, e.__traceback__))[-3000:]}
+    try:
+        conn.send(part)
+    finally:
+        conn.close()
+    os._exit(0)
 
 
 def new_agg():
@@ -272,11 +290,12 @@ def match_known(known, sig):
 # ---------------------------------------------------------------------------------
 
 
-def write_replay(pid, seed, scenario, violation, out):
+def write_replay(pid, seed, scenario, violation, out, preamble=None):
     d = os.environ.get('VERIF_REPLAY_DIR') or os.path.join(boot.VERIF, 'replays')
     os.makedirs(d, exist_ok=True)
     sigslug = hashlib.sha256(violation['sig'].encode()).hexdigest()[:8]
-    path = os.path.join(d, f'{pid}-{seed}-{sigslug}-{scenario_digest(scenario)[:8]}.json')
+    suffix = ('-h' + hashlib.sha256(canon(preamble).encode()).hexdigest()[:6]) if preamble else ''
+    path = os.path.join(d, f'{pid}-{seed}-{sigslug}-{scenario_digest(scenario)[:8]}{suffix}.json')
     with open(path, 'w') as f:
         json.dump(
             {
@@ -284,7 +303,10 @@ def write_replay(pid, seed, scenario, violation, out):
                 'seed': seed,
                 'scenario': scenario,
                 'expected': {'kind': violation['kind'], 'sig': violation['sig'], 'detail': violation.get('detail')},
-                'digest': out.get('digest'),
+                # scenarios (by seed) the process must execute first: the violation depends on state the code under test
+                # keeps between executions in one process
+                'preamble': preamble,
+                'digest': out.get('digest') if not preamble else None,
                 'trace': out.get('log'),
             },
             f,
@@ -300,6 +322,12 @@ def replay_file(path, quiet=False):
         rep = json.load(f)
     pid = rep['property']
     mod = load_prop(pid)
+    pre = rep.get('preamble')
+    if pre:
+        for sd in pre['seeds']:
+            run_one(mod, mod.gen(sd, pre['tier']))
+        if not quiet:
+            print(f'executed {len(pre["seeds"])} preamble scenario(s) first (seeds {pre["seeds"][:8]}{"..." if len(pre["seeds"]) > 8 else ""})')
     out = run_one(mod, rep['scenario'], want_log=True)
     if 'harness_error' in out:
         print('HARNESS-ERROR during replay:\n' + out['harness_error'])
@@ -407,41 +435,62 @@ def run_check(pid, tier, base_seed=None, budget_s=None, workers=None, runs=None)
         if rc != 0:
             harness_fail = 'determinism self-test failed (see output above)'
         sys.stdout.flush()
+    # One forked process per chunk: every chunk starts from the same clean image (pytezos imported, nothing executed),
+    # so whatever the code under test keeps between executions is a function of the seeds of that chunk alone.
     ctx = multiprocessing.get_context('fork')
     next_start = 0
-    with ProcessPoolExecutor(max_workers=workers, mp_context=ctx) as pool:
-        pending = []
+    active = []  # (process, connection, started_at, seeds)
+    chunk_timeout = getattr(mod, 'CHUNK_TIMEOUT_S', 300)
 
-        def submit():
-            nonlocal next_start
-            if runs is not None and next_start >= runs:
-                return False
-            n = chunk if runs is None else min(chunk, runs - next_start)
-            seeds = seeds_for(base_seed, next_start, n)
-            next_start += n
-            pending.append(pool.submit(_worker_chunk, (pid, tier, seeds, getattr(mod, 'CHUNK_TIMEOUT_S', 300))))
-            return True
+    def submit():
+        nonlocal next_start
+        if runs is not None and next_start >= runs:
+            return False
+        n = chunk if runs is None else min(chunk, runs - next_start)
+        seeds = seeds_for(base_seed, next_start, n)
+        next_start += n
+        parent, child = ctx.Pipe(duplex=False)
+        proc = ctx.Process(target=_chunk_main, args=(child, (pid, tier, seeds, chunk_timeout)), daemon=True)
+        proc.start()
+        child.close()
+        active.append((proc, parent, time.time(), seeds))
+        return True
 
-        for _ in range(workers * 2):
-            if not submit():
-                break
-        try:
-            while pending:
-                fut = pending.pop(0)
-                part = fut.result(timeout=getattr(mod, 'CHUNK_TIMEOUT_S', 300) + 30)
+    for _ in range(workers):
+        if not submit():
+            break
+    from multiprocessing.connection import wait as _wait
+
+    while active and not harness_fail:
+        ready = _wait([c for _p, c, _t, _s in active], timeout=5)
+        now = time.time()
+        for entry in list(active):
+            proc, conn, started, seeds = entry
+            if conn in ready:
+                try:
+                    part = conn.recv()
+                except EOFError:
+                    part = None
+                conn.close()
+                proc.join(timeout=10)
+                active.remove(entry)
+                if part is None or 'worker_exception' in part:
+                    harness_fail = 'worker failed on seeds %d..%d: %s' % (seeds[0], seeds[-1], (part or {}).get('worker_exception', 'died without a result'))
+                    break
                 merge_agg(total, part)
                 over_budget = (time.time() - t0) > budget_s
                 many_viol = sum(c for sg, c in total['sig_counts'].items() if sg not in known_sigs) >= 60
-                if not over_budget and not many_viol:
+                if not many_viol and (not over_budget or (runs is not None and tier == 'quick' and (time.time() - t0) < budget_s * 3)):
+                    # quick tier: the run count is the contract, the budget a safety net
                     submit()
-                elif runs is not None and tier == 'quick' and not many_viol:
-                    # quick tier: the run count is the contract; the budget is a safety net
-                    if (time.time() - t0) < budget_s * 3:
-                        submit()
-        except (BrokenProcessPool, FutTimeout) as e:
-            harness_fail = f'worker died or timed out: {e!r}'
-            for f in pending:
-                f.cancel()
+            elif now - started > chunk_timeout + 30:
+                proc.terminate()
+                active.remove(entry)
+                harness_fail = f'worker timed out on seeds {seeds[0]}..{seeds[-1]}'
+                break
+    for proc, conn, _t, _s in active:
+        proc.terminate()
+        conn.close()
     search_wall = time.time() - t0
 
     if total['harness_errors'] and not harness_fail:
@@ -480,6 +529,7 @@ def run_check(pid, tier, base_seed=None, budget_s=None, workers=None, runs=None)
         path = ok = None
         txt = ''
         if vv is not None:
+            vv = {k: x for k, x in vv.items() if k != '_history'}
             path = write_replay(pid, seed, small, vv, out)
             ok, txt = replay_fresh(path)
         if not ok:
@@ -488,17 +538,67 @@ def run_check(pid, tier, base_seed=None, budget_s=None, workers=None, runs=None)
             # own candidates then influence each other.  Fall back to a case as found, verified in a fresh interpreter,
             # and minimise it with fresh-process executions only (slow, small budget).
             found = None
+            history_note = None
             for seed2, scn2, _v2 in cases[:12]:
                 out2 = run_one(mod, scn2, want_log=True)
                 v2 = next((x for x in out2.get('violations', []) if x['sig'] == sig), None)
                 if v2 is None:
                     continue
+                v2 = {k: x for k, x in v2.items() if k != '_history'}
                 p2 = write_replay(pid, seed2, scn2, v2, out2)
                 ok2, txt2 = replay_fresh(p2)
                 if ok2:
                     found = (seed2, scn2, v2, p2)
                     break
                 txt = txt2
+            if found is None:
+                # last resort: reproduce the process history of the run that found it (the chunk starts from a clean image)
+                for seed2, scn2, v2 in cases[:4]:
+                    hist = v2.get('_history') or []
+                    if not hist:
+                        continue
+                    pre = {'tier': tier, 'seeds': list(hist)}
+                    clean_v = {k: x for k, x in v2.items() if k != '_history'}
+                    p2 = write_replay(pid, seed2, scn2, clean_v, {}, preamble=pre)
+                    ok2, txt2 = replay_fresh(p2)
+                    if not ok2:
+                        continue
+                    # minimise the preamble with fresh-process executions (which earlier runs are needed?)
+                    best, used, n2 = list(hist), 0, 2
+                    while used < 30 and len(best) >= 2:
+                        size = max(1, len(best) // n2)
+                        reduced = False
+                        for st_ in range(0, len(best), size):
+                            cand = best[:st_] + best[st_ + size:]
+                            p3 = write_replay(pid, seed2, scn2, clean_v, {}, preamble={'tier': tier, 'seeds': cand})
+                            used += 1
+                            ok3, _ = replay_fresh(p3)
+                            if ok3:
+                                best, p2, reduced = cand, p3, True
+                                n2 = max(n2 - 1, 2)
+                                break
+                            os.unlink(p3)
+                            if used >= 30:
+                                break
+                        if not reduced:
+                            if size == 1:
+                                break
+                            n2 = min(len(best), n2 * 2)
+                    found = (seed2, scn2, clean_v, p2)
+                    history_note = f'needs {len(best)} earlier scenario(s) in the same process (seeds {best[:6]}{"..." if len(best) > 6 else ""})'
+                    break
+            if found is not None and history_note:
+                seed, scn2, vv, path = found
+                small = scn2
+                execs = f'{execs} in-process (unstable) + fresh-process history minimisation'
+                print(f'  note: {sig} depends on process history: {history_note}')
+                reported.append({'signature': sig, 'seed': seed, 'count': total['sig_counts'].get(sig, len(cases)), 'replay': path, 'shrink_execs': execs,
+                                 'detail': vv.get('detail'), 'process_history': history_note})
+                print(f'VIOLATION property={pid} replay={path}')
+                print(f'  signature: {sig}   occurrences: {total["sig_counts"].get(sig, len(cases))}   shrink executions: {execs}')
+                print(f'  detail: {json.dumps(vv.get("detail"), default=str)[:1200]}')
+                exit_code = 1
+                continue
             if found is None:
                 unstable.append(f'violation {sig!r} (seed {seed}, {total["sig_counts"].get(sig, len(cases))} occurrences) reproduces neither minimised nor as '
                                 f'found in a fresh interpreter — it depends on what the worker process executed before that run')
